@@ -36,6 +36,7 @@ var kinds = []string{
 	"ping-ok", "ping-silent-cancel", "oneway-non", "oneway-con-silent-cancel",
 	"incoming-con", "incoming-non", "incoming-blockwise-abort", "write-error",
 	"ping-write-error", "observe-write-error", "oneway-write-error", "con-queued-behind-nstart-cancel",
+	"observe-cancel-rejected", "observe-one-block-notification-cancel",
 }
 
 type cfg struct {
@@ -116,7 +117,7 @@ func scenario(c cfg) *mcx.Scenario {
 							second = true
 						})
 						_ = second
-					case "observe-cancel", "observe-live", "observe-silent-cancel", "observe-acked-silent-cancel", "observe-404":
+					case "observe-cancel", "observe-live", "observe-silent-cancel", "observe-acked-silent-cancel", "observe-404", "observe-cancel-rejected", "observe-one-block-notification-cancel":
 						start("observe", func() error {
 							req := w.Request(ctx, codes.GET, "/obs", tok, message.Confirmable, nil)
 							req.SetObserve(0)
@@ -187,6 +188,7 @@ func scenario(c cfg) *mcx.Scenario {
 					// ---- the peer for this exchange
 					blockBody := "0123456789abcdef0123456789abcdef01234567" // 40 bytes: 3 blocks of 16
 					downloadStarted := false
+					notified := false
 					for round := 0; round < 16; round++ {
 						vrt.Quiesce("env: settle")
 						acted := false
@@ -217,6 +219,8 @@ func scenario(c cfg) *mcx.Scenario {
 							b2, e2 := m.Options.GetUint32(message.Block2)
 							obsV, eo := m.Options.GetUint32(message.Observe)
 							switch {
+							case eo == nil && obsV == 1 && kind == "observe-cancel-rejected": // the peer refuses the deregistration
+								ack(codes.NotFound, "")
 							case eo == nil && obsV == 1: // deregistration
 								ack(codes.Content, "bye")
 							case kind == "do-ok" || kind == "dup-token" || kind == "do-non-ok":
@@ -254,7 +258,7 @@ func scenario(c cfg) *mcx.Scenario {
 									hi, more = len(blockBody), 0
 								}
 								ack(codes.Content, blockBody[lo:hi], u32opt(message.Block2, num<<4|more))
-							case kind == "observe-cancel" || kind == "observe-live":
+							case kind == "observe-cancel" || kind == "observe-live" || kind == "observe-cancel-rejected" || kind == "observe-one-block-notification-cancel":
 								ack(codes.Content, "v1", u32opt(message.Observe, 7))
 							case kind == "observe-404":
 								ack(codes.NotFound, "")
@@ -272,7 +276,14 @@ func scenario(c cfg) *mcx.Scenario {
 							cancel()
 							continue
 						}
-						if opDone && kind == "observe-cancel" && obsCancel != nil {
+						if opDone && kind == "observe-one-block-notification-cancel" && obsCancel != nil && !notified {
+							// a notification whose body is exactly one block: Block2 NUM=0 M=0 (what a go-coap server sends then)
+							notified = true
+							_ = w.Inject(message.Message{Type: message.NonConfirmable, Code: codes.Content, MessageID: w.PeerMID(), Token: tok, Payload: bytes.Repeat([]byte("n"), 16),
+								Options: message.Options{u32opt(message.Observe, 8), u32opt(message.Block2, 0<<4|0|0)}})
+							continue
+						}
+						if opDone && (kind == "observe-cancel" || kind == "observe-cancel-rejected" || kind == "observe-one-block-notification-cancel") && obsCancel != nil {
 							f := obsCancel
 							obsCancel = nil
 							opDone = false
@@ -299,7 +310,9 @@ func scenario(c cfg) *mcx.Scenario {
 					sizes := w.CC.VerifSizes()
 					abandoned := false
 					for _, k := range hist {
-						if strings.Contains(k, "abort") || strings.Contains(k, "wrong-block") || strings.Contains(k, "silent") || strings.Contains(k, "rst") {
+						// (a one-block notification leaves the helper request of the observe x block-wise path behind until the
+						// transfer timeout - like an abandoned transfer it is judged after expiry, in phase B)
+						if strings.Contains(k, "abort") || strings.Contains(k, "wrong-block") || strings.Contains(k, "silent") || strings.Contains(k, "rst") || strings.Contains(k, "one-block-notification") {
 							abandoned = true
 						}
 					}
